@@ -345,8 +345,9 @@ def feed (g : Cfg) (e : Env) : S → List Bytes → List Act → PR
     | some er => ⟨(parse g e s seg).s, acts ++ (parse g e s seg).acts, some er⟩
     | none => feed g e (parse g e s seg).s segs (acts ++ (parse g e s seg).acts)
 
-/-- what can be observed of a result: the actions, the error, and the state while the connection lives -/
-def PR.obs (r : PR) : List Act × Option Err × Option S := (r.acts, r.err, if r.err.isNone then some r.s else none)
+/-- what can be observed of a result: the actions, the error, what Parse keeps besides the unparsed bytes, and
+    the unparsed bytes while the connection lives -/
+def PR.obs (r : PR) : List Act × Option Err × K × Option Bytes := (r.acts, r.err, r.s.k, if r.err.isNone then some r.s.cache else none)
 
 theorem feed_flatten (g : Cfg) (e : Env) (hl : g.readLimit = 0) : ∀ (segs : List Bytes) (s : S) (acts : List Act),
     Within g s → nextFrame g s = .need →
